@@ -235,8 +235,8 @@ func TestVP_C40_token(t *testing.T) {
 
 // c40Node is the plain-data form of a generated tree.
 type c40Node struct {
-	Tag  string      `json:"tag,omitempty"`  // "" = text node
-	Text []byte      `json:"text,omitempty"` // text node data
+	Tag  string `json:"tag,omitempty"`  // "" = text node
+	Text []byte `json:"text,omitempty"` // text node data
 	// attribute values as bytes so that invalid UTF-8 survives JSON
 	AttrK []string  `json:"attr_k,omitempty"`
 	AttrV [][]byte  `json:"attr_v,omitempty"`
